@@ -146,10 +146,8 @@ def random_records(rng, n_events, rep):
         rep.violation(f"record serialization event rejected by Trace_Codec: res={obs[i].get('res')}", {"fam": "ser_random", "cmd": cmds[i]},
                       expected="SerAllowed (SerdeModel.tla)", observed=obs[i])
     traces = codec.validate_events("Trace_Codec", "Trace_Codec.cfg", events, scope_path, rej, chunk=100)
-    for ev in events:
-        if ev["res"] == "ok" and len(ev["bytes"]) > 1:
-            codec.binding_check("Trace_Codec", "Trace_Codec.cfg", ev, lambda e: dict(e, bytes=e["bytes"][::-1] + [1]), scope_path)
-            break
+    codec.binding_check_some("Trace_Codec", "Trace_Codec.cfg", (ev for ev in events if ev["res"] == "ok" and len(ev["bytes"]) > 1),
+                             lambda e: dict(e, bytes=e["bytes"][::-1] + [1]), scope_path)
     return {"traces": traces, "events": len(events), "samples": [events[0]]}
 
 
